@@ -43,7 +43,7 @@ fn main() {
         "toggles" => suites::toggles::main(seed, first, runs, &out, kv.get("sched")),
         "config" => suites::config::main(seed, first, runs, &out, kv.get("sched")),
         "registry" => suites::registry::main(seed, first, runs, &out, kv.get("sched")),
-        "dist" => suites::dist::main(seed, first, runs, ops, &out, kv.get("sched"), kv.get("table").and_then(|t| t.parse().ok())),
+        "dist" => suites::dist::main(seed, first, runs, ops, &out, kv.get("sched"), kv.get("table").and_then(|t| t.parse().ok()), kv.get("kind").map(|s| s.as_str()).unwrap_or("single")),
         "pipeline" => suites::pipeline::main(seed, first, runs, &out, kv.get("sched")),
         "incentive" => suites::incentive::main(seed, first, runs, ops, &out, kv.get("sched"), kv.get("table").and_then(|t| t.parse().ok())),
         "trio" => suites::trio::main(seed, first, runs, ops, &out),
